@@ -388,7 +388,10 @@ impl<T: BitRead> PackedRead for T {
                 .checked_add(std_variants)
                 .ok_or_else(|| ErrorKind::ValueExceedsMaxInt.into())
         } else {
-            self.read_non_negative_binary_integer(None, Some(std_variants - 1))
+            let max_index = std_variants
+                .checked_sub(1)
+                .ok_or(ErrorKind::InvalidChoiceIndex(0, std_variants))?;
+            self.read_non_negative_binary_integer(None, Some(max_index))
         }
     }
 }
